@@ -372,6 +372,16 @@ impl Machine {
     /// Drop a closure by decrementing its reference count.
     /// When refcount reaches 0, recursively drops captured closures and removes the closure.
     pub fn drop_closure(&mut self, id: ClosureIdx) {
+        #[cfg(mimium_verif)]
+        crate::runtime::verif_hooks::emit(
+            "cls",
+            "drop",
+            id.0.data().as_ffi() as i64,
+            self.closures.get(id.0).map_or(-1, |c| c.refcount as i64 - 1),
+            self.closures.len() as i64,
+            0,
+            0,
+        );
         let cls = self.closures.get_mut(id.0).unwrap();
         cls.refcount -= 1;
         if cls.refcount == 0 {
@@ -609,6 +619,45 @@ impl Machine {
         );
         unsafe { self.closures.get_unchecked_mut(idx.0) }
     }
+    /// Verification hook: record a state access / cursor move of the current
+    /// state storage before it happens. Fields: a = storage id (0 = global
+    /// dsp storage, otherwise the closure key), b = cursor position,
+    /// c = size in words (or offset for push/pop), d = storage capacity.
+    #[cfg(mimium_verif)]
+    fn verif_state_event(&mut self, kind: &'static str, size: u64) {
+        use crate::runtime::verif_hooks as vh;
+        if !vh::is_recording() && !vh::is_strict() {
+            return;
+        }
+        let sid = self
+            .states_stack
+            .0
+            .last()
+            .map_or(0, |c| c.0.data().as_ffi() as i64);
+        let st = self.get_current_state();
+        let (pos, cap) = (st.pos as i64, st.rawdata.len() as i64);
+        vh::emit("st", kind, sid, pos, size as i64, cap, 0);
+        if vh::is_strict() {
+            let bad = match kind {
+                "push" => false,
+                "pop" => (size as i64) > pos,
+                _ => pos + size as i64 > cap,
+            };
+            if bad {
+                panic!("mimium_verif: state {kind} out of range: pos={pos} size={size} cap={cap} store={sid}");
+            }
+        }
+    }
+    /// Verification hook: the flat dsp state words and the cursor position.
+    #[cfg(mimium_verif)]
+    pub fn verif_global_state(&self) -> (usize, &[u64]) {
+        (self.global_states.pos, &self.global_states.rawdata)
+    }
+    /// Verification hook: number of words on the value stack.
+    #[cfg(mimium_verif)]
+    pub fn verif_stack_len(&self) -> usize {
+        self.stack.len()
+    }
     fn get_current_state(&mut self) -> &mut StateStorage {
         if self.states_stack.0.is_empty() {
             &mut self.global_states
@@ -688,6 +737,16 @@ impl Machine {
         let idx = self
             .closures
             .insert(Closure::new(&self.prog, self.base_pointer, fn_i, upv_map));
+        #[cfg(mimium_verif)]
+        crate::runtime::verif_hooks::emit(
+            "cls",
+            "alloc",
+            idx.data().as_ffi() as i64,
+            1,
+            self.closures.len() as i64,
+            fn_i as i64,
+            0,
+        );
         ClosureIdx(idx)
     }
 
@@ -706,6 +765,16 @@ impl Machine {
         // Layout: [closure_idx_as_raw_val]
         let heap_obj = heap::HeapObject::with_data(vec![Self::to_value(closure_idx)]);
         let heap_idx = self.heap.insert(heap_obj);
+        #[cfg(mimium_verif)]
+        crate::runtime::verif_hooks::emit(
+            "heap",
+            "alloc",
+            heap_idx.data().as_ffi() as i64,
+            1,
+            self.heap.len() as i64,
+            1,
+            0,
+        );
 
         log::trace!(
             "allocate_heap_closure: fn_i={fn_i}, heap_idx={heap_idx:?}, closure_idx={closure_idx:?}"
@@ -1027,6 +1096,16 @@ impl Machine {
                     let (_, src_data) = self.get_stack_range(src as i64, inner_size);
                     let data = src_data.to_vec();
                     let heap_idx = self.heap.insert(heap::HeapObject::with_data(data));
+                    #[cfg(mimium_verif)]
+                    crate::runtime::verif_hooks::emit(
+                        "heap",
+                        "alloc",
+                        heap_idx.data().as_ffi() as i64,
+                        1,
+                        self.heap.len() as i64,
+                        0,
+                        0,
+                    );
                     self.set_stack(dst as i64, Self::to_value(heap_idx));
                 }
                 Instruction::BoxLoad(dst, src, inner_size) => {
@@ -1344,6 +1423,8 @@ impl Machine {
                     buffer.copy_from_slice(&src_words);
                 }
                 Instruction::GetState(dst, size) => {
+                    #[cfg(mimium_verif)]
+                    self.verif_state_event("get", size as u64);
                     //force borrow because state storage and stack never collisions
                     let v: &[RawVal] = unsafe {
                         std::mem::transmute(self.get_current_state().get_state(size as _))
@@ -1351,6 +1432,8 @@ impl Machine {
                     self.set_stack_range(dst as i64, v);
                 }
                 Instruction::SetState(src, size) => {
+                    #[cfg(mimium_verif)]
+                    self.verif_state_event("set", size as u64);
                     let vs = {
                         let (_range, v) = self.get_stack_range(src as i64, size as _);
                         unsafe { std::mem::transmute::<&[RawVal], &[RawVal]>(v) }
@@ -1358,7 +1441,19 @@ impl Machine {
                     let dst = self.get_current_state().get_state_mut(size as _);
                     dst.copy_from_slice(vs);
                 }
+                #[cfg(mimium_verif)]
+                Instruction::PushStatePos(v) => {
+                    self.verif_state_event("push", std::convert::Into::<u64>::into(v));
+                    self.get_current_state().push_pos(v)
+                }
+                #[cfg(mimium_verif)]
+                Instruction::PopStatePos(v) => {
+                    self.verif_state_event("pop", std::convert::Into::<u64>::into(v));
+                    self.get_current_state().pop_pos(v)
+                }
+                #[cfg(not(mimium_verif))]
                 Instruction::PushStatePos(v) => self.get_current_state().push_pos(v),
+                #[cfg(not(mimium_verif))]
                 Instruction::PopStatePos(v) => self.get_current_state().pop_pos(v),
                 Instruction::Delay(dst, src, time) => {
                     let i = self.get_stack(src as i64);
@@ -1372,6 +1467,8 @@ impl Machine {
                             .delay_sizes
                             .get_unchecked(*delaysize_i)
                     };
+                    #[cfg(mimium_verif)]
+                    self.verif_state_event("delay", size_in_samples + 2);
                     let mut ringbuf = self.get_current_state().get_as_ringbuffer(size_in_samples);
 
                     let res = ringbuf.process(i, t);
@@ -1379,6 +1476,8 @@ impl Machine {
                 }
                 Instruction::Mem(dst, src) => {
                     let s = self.get_stack(src as i64);
+                    #[cfg(mimium_verif)]
+                    self.verif_state_event("mem", 1);
                     let ptr = self.get_current_state().get_state_mut(1);
                     let v = Self::to_value(ptr[0]);
                     self.set_stack(dst as i64, v);
